@@ -76,6 +76,7 @@ class URecIO(C18.RecIO):
     def write(self, buf):
         k = super().write(buf)
         if b"\x03" in bytes(buf):
+            self._line = getattr(self, "_line", b"").replace(b"\x03", b"")     # ^C is not part of a command line
             st = self.sim.intr()
             self.stage_log.append([[t, d] for t, d in st])
             now = self.clock.t
@@ -208,6 +209,9 @@ class UBootSuite(Suite):
         return f"{obs[0][0]}:{'auto' if c['autoboot'] else 'noauto'}:{c['stall']}:{c['need_intr']}"
 
     def finding_key(self, case, obs, failure):
+        # a ^C of the prompt poll loop that is answered with a prompt of its own after _init_shell has returned
+        if "first command" in failure and obs[0][0] == "ok" and any(b == b"\x03" for _, b in obs[1]):
+            return "C18:uboot-poll-intr-extra-prompt"
         return None
 
     def gen(self, tier, rng):
